@@ -8,8 +8,18 @@ import SC.Lemmas.BufSize
 import SC.Lemmas.Merge
 import SC.Lemmas.BufVisible
 import SC.Lemmas.Attach
+import SC.Table
+import SC.Generated.Tables
 namespace SC.Props
 open SC SC.B
+
+/-- OBLIGATION on the current source: the fingerprint by which the serialized buffer decides at the
+flush whether the buffered bytes differ from what entered the buffer (`_hash`) is the digest of a
+`hashlib` hash — the assumption under which the buffer machine may compare *contents* where the
+code compares hashes (`Entry.hash`).  A cheaper checksum makes distinct contents compare equal and
+the flush skip a modified file; the concrete lost write is then looked for by the collision probe
+(`unit_weak_hash`). -/
+theorem C05_change_detection_hash_is_cryptographic : Generated.bufferHash = .cryptographic := by decide
 
 /-- C05, deferral: a save performed while the object is buffered (any nesting of `obj.buffered` /
 `buffer_backend()`) changes neither content nor metadata of ANY file — unless the buffer size
